@@ -84,6 +84,12 @@ Pair == [kind |-> "pair", size |-> S, a |-> a, b |-> b,
          cont      |-> Contingency(a, b, S),
          jaccard   |-> Jaccard(a, b, S),
          forbes    |-> Forbes(a, b, S),
+         \* a genome of three contigs of size S: contig 1 holds a and b, contig 2 holds a only, contig 3 holds nothing.
+         \* The table of the genome is the sum of the tables of its contigs (no contig may be skipped, an empty one counts as "neither").
+         genome3   |-> LET t == <<Contingency(a, b, S), Contingency(a, <<>>, S), Contingency(<<>>, <<>>, S)>>
+                           c == [k \in 1..4 |-> t[1][k] + t[2][k] + t[3][k]]
+                       IN [cont |-> c, jaccard |-> <<c[1], c[1] + c[2] + c[3]>>,
+                           forbes |-> <<c[1] * (c[1] + c[2] + c[3] + c[4]), (c[1] + c[2]) * (c[1] + c[3])>>],
          \* all-against-all similarity of three sets: a, b and the maximal runs of their union
          third     |-> Merge(a \o b, S, 0),
          jaccardAll |-> LET sets == <<a, b, Merge(a \o b, S, 0)>> IN [i \in 1..3 |-> [j \in 1..3 |-> Jaccard(sets[i], sets[j], S)]]]
